@@ -20,7 +20,7 @@ const redisPkg = "core/stores/redis"
 
 func c19(c *Ctx) {
 	c.R.RuleText = "path enumeration of the lock and release Lua scripts (guards and flags of every SET/DEL), value flow of the owner id and the lease into ARGV, reply mapping on all paths of AcquireCtx/ReleaseCtx, who-writes the id"
-	c.R.Explain = "Structural necessary conditions of C19: in the lock script every SET on KEYS[1] stores ARGV[1] with PX ARGV[2]; the SET that is not guarded by GET KEYS[1] == ARGV[1] carries NX; the owner branch re-SETs (refreshing the lease) and returns OK; the release script deletes KEYS[1] only under GET KEYS[1] == ARGV[1] and otherwise returns 0 without effects; Go runs exactly these scripts (one EVAL each — atomic), passing the lock's key, its id (written only by the constructor from a 16-character random string) and the lease seconds·1000+500 computed in int (not the 32-bit field type); AcquireCtx reports true only for reply OK with a nil error, ReleaseCtx only for reply 1. NOT decided: mutual exclusion over histories with expiry (Redis time), uniqueness of random ids."
+	c.R.Explain = "Structural necessary conditions of C19: in the lock script every SET on KEYS[1] stores ARGV[1] with PX ARGV[2]; the SET that is not guarded by GET KEYS[1] == ARGV[1] carries NX; the owner branch re-SETs (refreshing the lease) and returns OK; the release script deletes KEYS[1] only under GET KEYS[1] == ARGV[1] and otherwise returns 0 without effects; Go runs exactly these scripts (one EVAL each — atomic), passing the lock's key, its id (written only by the constructor from a 16-character random string) and the lease seconds·1000+500 computed in a 64-bit integer type (not the 32-bit field type, nor int, which is 32 bits on 32-bit platforms); AcquireCtx reports true only for reply OK with a nil error, ReleaseCtx only for reply 1. NOT decided: mutual exclusion over histories with expiry (Redis time), uniqueness of random ids."
 	c.R.Assume = append(c.R.Assume, "Redis EVAL is atomic", "SET NX PX / GET / DEL semantics")
 	c19lock(c)
 	c19release(c)
@@ -203,7 +203,7 @@ func c19go(c *Ctx) {
 	}
 	if f := c.fn(rule, redisPkg, "(*RedisLock).AcquireCtx"); f != nil {
 		ps := c.paths(rule, f, px.Config{})
-		c.forall(rule, redisPkg+".(*RedisLock).AcquireCtx", "the store is used only through one run of the lock script with keys [rl.key] and args [rl.id, lease ms]; lease = int(seconds)·1000 + 500 computed in int; true only for reply \"OK\" with a nil error; a store error is returned", f, ps, func(p *px.Path) (bool, string) {
+		c.forall(rule, redisPkg+".(*RedisLock).AcquireCtx", "the store is used only through one run of the lock script with keys [rl.key] and args [rl.id, lease ms]; lease = seconds·1000 + 500 computed in a 64-bit integer type; true only for reply \"OK\" with a nil error; a store error is returned", f, ps, func(p *px.Path) (bool, string) {
 			sc := storeCalls(p)
 			if len(sc) != 1 || !run(sc[0]) {
 				return false, "the store is used other than by a single script run (a non-atomic sequence of commands)"
@@ -223,8 +223,8 @@ func c19go(c *Ctx) {
 				return false, "KEYS[1]/ARGV[1] are not the lock's key and id"
 			}
 			l := args[1].Strip(false)
-			if l.Kind != px.KCall || shortName(l.Call) != "strconv.Itoa" {
-				return false, "the lease is not rendered with strconv.Itoa"
+			if l.Kind != px.KCall || (shortName(l.Call) != "strconv.Itoa" && shortName(l.Call) != "strconv.FormatInt") {
+				return false, "the lease is not rendered with strconv.Itoa / strconv.FormatInt"
 			}
 			sum := l.Call.Args[0]
 			got := anf(p, sum, func(s *px.Sym) string {
@@ -245,8 +245,9 @@ func c19go(c *Ctx) {
 				if s.Kind == px.KBinOp && s.Typ != nil {
 					if b, ok := s.Typ.Underlying().(*types.Basic); ok {
 						switch b.Kind() {
-						case types.Int, types.Int64, types.Uint64, types.UntypedInt:
+						case types.Int64, types.Uint64, types.UntypedInt:
 						default:
+							// `int` is 32 bits wide on 32-bit platforms (GOARCH=386/arm): 30 days · 1000 already overflows there
 							return b.Name()
 						}
 					}
@@ -262,7 +263,7 @@ func c19go(c *Ctx) {
 				return ""
 			}
 			if n := narrow(sum, 0); n != "" {
-				return false, "the lease is computed in " + n + ": it wraps for long expiries (seconds·1000 overflows 32 bits above ~49.7 days) and the lock expires early"
+				return false, "the lease is computed in " + n + ", which is (or may be, for int on 32-bit platforms) 32 bits wide: seconds·1000 wraps for long expiries (above ~24.8 days signed / ~49.7 days unsigned) — the lock expires early or the SET is refused"
 			}
 			if p.Exit != px.ExitReturn {
 				return true, ""
